@@ -56,7 +56,7 @@ Hypothesis H_emit : forall sp bytes, RM (emit sp bytes).
 Hypothesis H_eval : forall e, RM (evaluate_expression e).
 Hypothesis H_enter : forall s c, R c (enter_scope s c).
 Hypothesis H_leave : forall p n c, R c (leave_scope p n c).
-Hypothesis H_install : forall n s c, R c (install_segment n s c).
+Hypothesis H_install : forall n o c, R c (install_segment n o c).
 Hypothesis H_setpc : forall pc c, R c (set_current_pc pc c).
 Hypothesis H_select : forall o c, R c (select_segment o c).
 Hypothesis H_bump : forall c, R c (bump_macro_id c).
